@@ -26,7 +26,12 @@
 (*   ExportGenesis -> InitGenesis), ExportImport (ExportAppStateAndVali-   *)
 (*   dators -> InitChain on a fresh application), both either in the ABCI  *)
 (*   order (InitChain, BeginBlock, no Commit in between: phase "imported") *)
-(*   or with a Commit after InitChain; Init / Next for block sequences;    *)
+(*   or with a Commit after InitChain; Upgrade (a software-upgrade plan     *)
+(*   becomes due: the next block's x/upgrade BeginBlocker runs the module's *)
+(*   in-place store migrations from an older consensus version BEFORE the   *)
+(*   fee market's BeginBlock); transactions enter a block through one of    *)
+(*   the application's ante chains (TxKinds); Init / Next for block         *)
+(*   sequences;                                                             *)
 (*   CalcInit / CalcNext for the pure input grid.                          *)
 (*                                                                         *)
 (* All quantities that can exceed 31 bits are decimal strings (BigNum).    *)
@@ -201,6 +206,17 @@ EndBlockInDomain(s, used) == PGasDomain(s.tgw) /\ PGasDomain(used)
 \* args.commit (reinit, export_import): FALSE = the ABCI order InitChain, BeginBlock (the first
 \* Commit comes after the first block), TRUE = a Commit between InitChain and BeginBlock
 Boundaries == {"restart", "reinit", "export_import"}
+\* a software upgrade: the block that follows runs the in-place store migrations of the module
+\* from consensus version args.from (x/upgrade BeginBlocker, ordered before the fee market's).
+\* The statement knows no upgrade blocks: the base fee of that block is still the function of the
+\* previous block's base fee and gas figure
+Upgrades == {"upgrade"}
+\* how a transaction enters the block: "decorator" = the GasWantedDecorator alone (keeper level);
+\* the others through DeliverTx and the ante chain the application selects for that kind of
+\* transaction (Cosmos, Cosmos with ExtensionOptionDynamicFeeTx, Cosmos with
+\* ExtensionOptionsWeb3Tx = legacy EIP-712, Ethereum).  The statement's gasWanted is the gas
+\* declared by the transactions of the block, whatever their kind
+TxKinds == {"decorator", "cosmos", "cosmos-dynfee", "eip712-legacy", "eth"}
 
 StepOK(e, s, t) ==
     CASE e.ev = "begin_block" ->
@@ -219,7 +235,7 @@ StepOK(e, s, t) ==
       [] e.ev = "commit" ->
             \* the base fee and the gas figure are carried to the next block unchanged
             /\ t.baseFee = s.baseFee /\ t.bgw = s.bgw /\ t.params = s.params /\ t.maxGas = s.maxGas
-      [] e.ev \in Boundaries ->
+      [] e.ev \in Boundaries \cup Upgrades ->
             \* node operations between two blocks: what the next base fee is computed from is
             \* carried unchanged (silent when the operation itself fails)
             e.ok => /\ t.baseFee = s.baseFee /\ t.bgw = s.bgw /\ t.params = s.params /\ t.maxGas = s.maxGas
@@ -256,7 +272,9 @@ GhostNext(gh, e, s, t) ==
             [gh EXCEPT !.known = e.ok,
                        !.fig = IF GhostFigureSpeaks(gh, e, s)
                                THEN PGasFigure(gh.sum, s.params.minGasMultiplier, e.args.used) ELSE t.bgw]
-      [] e.ev \in Boundaries \cup {"commit"} -> IF e.ok THEN [gh EXCEPT !.after = e.ev] ELSE gh
+      [] e.ev \in Boundaries \cup Upgrades \cup {"commit"} ->
+            \* (the commit of the block in which an upgrade became due keeps the label "upgrade")
+            IF e.ok /\ ~(e.ev = "commit" /\ gh.after = "upgrade") THEN [gh EXCEPT !.after = e.ev] ELSE gh
       [] OTHER -> gh
 
 \* the block-level statement: the gas figure is max(sum of the gas the block's transactions
@@ -286,8 +304,10 @@ StepClass(e, s) ==
             ELSE IF ~EndBlockInDomain(s, e.args.used) THEN "silent:gas>int64"
             ELSE IF BigLT(BigQuo(BigMul(s.tgw, s.params.minGasMultiplier), One18), e.args.used)
                  THEN "used>wanted*mult" ELSE "wanted*mult>=used"
-      [] e.ev = "ante" -> IF ~PEnabled(s.params, s.height) THEN "silent:disabled"
-                          ELSE IF ~PGasDomain(BigAdd(s.tgw, e.args.gas)) THEN "silent:gas>int64" ELSE "enabled"
+      [] e.ev = "ante" -> (IF ~PEnabled(s.params, s.height) THEN "silent:disabled"
+                           ELSE IF ~PGasDomain(BigAdd(s.tgw, e.args.gas)) THEN "silent:gas>int64" ELSE "enabled")
+                          \o (IF e.args.kind = "decorator" THEN "" ELSE ",tx=" \o e.args.kind)
+      [] e.ev = "upgrade" -> "from=" \o ToString(e.args.from) \o "," \o FigClass(s)
       [] e.ev = "restart" -> FigClass(s)
       [] e.ev \in {"reinit", "export_import"} ->
             (IF e.args.commit THEN "committed," ELSE "abci-order,") \o FigClass(s)
@@ -328,7 +348,9 @@ MResult(s, ev, args) ==
                  [] r.out = "nil"   -> [ok |-> TRUE,  post |-> opened]
                  [] OTHER           -> [ok |-> TRUE,  post |-> [opened EXCEPT !.baseFee = r.fee]]
       [] ev = "ante" ->
-            \* GasWantedDecorator: reject above the block gas limit, accumulate when enabled
+            \* GasWantedDecorator: reject above the block gas limit, accumulate when enabled; every
+            \* ante chain of app/ante/handler_options.go ends in it, so the kind does not matter
+            \* (what else a chain may reject - fees, signatures, gas for the ante itself - is not modelled)
             LET ok == BigLE(args.gas, CodeBlockGasLimit(s.blkMaxGas)) IN
             [ok |-> ok,
              post |-> IF ok /\ PEnabled(s.params, s.height)
@@ -350,6 +372,11 @@ MResult(s, ev, args) ==
             [ok |-> TRUE, post |-> [s EXCEPT !.maxGas = args.maxGas]]
       [] ev = "restart" ->
             \* everything the fee market reads between blocks is in the committed stores
+            [ok |-> TRUE, post |-> s]
+      [] ev = "upgrade" ->
+            \* the plan is stored; the migrations of x/feemarket (v3 -> v4: the parameters move from
+            \* x/params into the module store) run in the next block before its BeginBlock and touch
+            \* neither the parameters' values nor the gas figure
             [ok |-> TRUE, post |-> s]
       [] ev = "reinit" ->
             [ok |-> TRUE, post |-> MImport(s, MGenesis(s), args.commit)]
@@ -381,9 +408,9 @@ BeginBlock ==
     /\ st.phase \in {"idle", "imported"} /\ bnd.blocks < MaxBlocks
     /\ Do("begin_block", [height |-> st.height + 1])
     /\ bnd' = [bnd EXCEPT !.blocks = @ + 1, !.antes = 0]
-AnteGasWanted(g) ==
+AnteGasWanted(g, k) ==
     /\ st.phase = "open" /\ bnd.antes < MaxAnte
-    /\ Do("ante", [gas |-> g])
+    /\ Do("ante", [gas |-> g, kind |-> k])
     /\ bnd' = [bnd EXCEPT !.antes = @ + 1]
 \* the block gas meter never reports more than its limit
 UsedOK(u) == BigLT("0", st.blkMaxGas) => BigLE(u, st.blkMaxGas)
@@ -416,12 +443,20 @@ ExportImport(c) ==
     /\ Do("export_import", [commit |-> c])
     /\ bnd' = [bnd EXCEPT !.bounds = @ + 1]
 
+\* the upgrade plan becomes due at the end of a block (governance), the next block migrates
+FromVersions == {3}
+Upgrade(v) ==
+    /\ st.phase = "ended" /\ bnd.bounds < MaxBounds
+    /\ Do("upgrade", [from |-> v])
+    /\ bnd' = [bnd EXCEPT !.bounds = @ + 1]
+
 Next ==
     /\ ~Halted
     /\ \/ BeginBlock
        \/ Restart
+       \/ \E v \in FromVersions : Upgrade(v)
        \/ \E c \in BOOLEAN : Reinit(c) \/ ExportImport(c)
-       \/ \E g \in Gases : AnteGasWanted(g)
+       \/ \E g \in Gases, k \in TxKinds : AnteGasWanted(g, k)
        \/ \E u \in Useds : EndBlock(u)
        \/ Commit
        \/ \E p \in ParamSets, b \in SetBases \cup {st.baseFee} : SetParams(p, b)
@@ -497,8 +532,10 @@ RandParams(h) == RandomElement(ParamSets)
 SimNext ==
     /\ Len(hist) < MaxLen /\ ~Halted
     /\ \/ BeginBlock
-       \/ AnteGasWanted(RandomElement(Gases))
-       \/ AnteGasWanted(RandomElement(Gases))
+       \* (scripts are replayed at keeper level: the model's gases are too small to pay for a real ante chain)
+       \/ AnteGasWanted(RandomElement(Gases), "decorator")
+       \/ AnteGasWanted(RandomElement(Gases), "decorator")
+       \/ RandomElement(1..4) = 1 /\ Upgrade(3)
        \/ (bnd.antes > 0 \/ RandomElement(1..3) = 1) /\ EndBlock(RandomElement({u \in Useds : UsedOK(u)}))
        \/ Commit
        \/ RandomElement(1..5) = 1 /\ Restart
